@@ -582,9 +582,14 @@ def term_coq(t):
 
 def modelled(case):
     """is the whole script inside the modelled fragment?"""
+    term = False
     for op in case["ops"]:
         if op["op"] == "SetStrictRanges" and (op.get("tight") is not None or op.get("clip") is not None):
             return False
+        if op["op"] == "SetTermination":
+            term = True
+        if op["op"] in ("Step", "Solve") and not term:
+            return False        # the solvers' default termination conditions are not in the machine model (generated scripts always set one)
     return case["solver"] in MODELLED
 
 
